@@ -183,6 +183,28 @@ def render_ty(ty):
     return s
 
 
+TRANSPARENT_WRAPPERS = ("intersection_operand",)
+
+
+def strip_wrappers(tokens, names=TRANSPARENT_WRAPPERS):
+    """`#crate_rename::wrapper(ARG)` -> ARG, for wrappers that only decorate the text of their argument
+    (intersection_operand adds parentheses around a union): a representation table should see the argument."""
+    out = []
+    i = 0
+    while i < len(tokens):
+        t = tokens[i]
+        if (t == "#" and i + 4 < len(tokens) and tokens[i + 1] == "crate_rename" and tokens[i + 2] == "::" and tokens[i + 3] in names
+                and isinstance(tokens[i + 4], dict) and tokens[i + 4]["d"] == "("):
+            out += strip_wrappers(tokens[i + 4]["ts"], names)
+            i += 5
+            continue
+        if isinstance(t, dict):
+            t = dict(t, ts=strip_wrappers(t["ts"], names))
+        out.append(t)
+        i += 1
+    return out
+
+
 def interpolations(tokens):
     """names of `#ident` interpolations in a quote! token tree (incl. inside #( ... )* repetitions)"""
     out = []
